@@ -33,14 +33,27 @@ route of the public API the real copy is made and the monitors judge:
                           and the OTHER side's signature is re-taken: it must not move
   hooks                   populate_memo_for_taxon_namespace_scoped_copy seeds exactly {namespace, its taxa} -> themselves;
                           deep_copy_annotations_from re-targets annotations bound to the source onto the destination
+  source-changed          the source's own signature is the same before and after the route ran (returned or raised)
+  exceptions              no copy route documents an error for these sources: any exception is a violation.  Keys name the
+                          operation as <kind>.<deep-route> for every route that runs the memo-driven deep-copy machinery
+                          (one root cause, one key) and mark sources that were themselves made by a copy constructor
+                          ([src=ctor-copy]: such objects adopted the __dict__ of a temporary and differ from all others).
+                          RecursionError on a tree deeper than 150 levels has its own key (confirmed in DESIGN).
+  extract_tree()          with default arguments on a source that has outdegree-1 nodes: the parameter is documented as
+                          "only done if some nodes are excluded", so the outdegree sequence must be kept (own key); the
+                          remaining clauses are then judged on extract_tree(suppress_unifurcations=False)
 
 Soundness limits: state alphabets / state identities are library-wide singletons (copy returns self) and are not
 entered; the bit assignment of a copied namespace is C10's subject (recorded, not judged); changes to shared-by-design
 parts (taxa and namespace on namespace-scoped routes, member trees / sequences on shallow routes) are not applied;
-X(src, taxon_namespace=other) is compared on taxon labels (taxa are re-created by label; bipartition masks not judged);
-shallow copies are judged on annotations, container independence and member identity only; TaxonNamespace.clone(1)
-returns the namespace itself (recorded); data sets are excluded (documented non-copyable); trees deeper than 150
-levels are only used by the directed recursion-depth case; nodes carry taxa of the tree's namespace only."""
+X(src, taxon_namespace=other) is compared on taxon labels (taxa are re-created by label; bipartition masks, namespace
+decorations not judged); X(src, label=...) is compared with the source as it looks under that label; shallow copies
+(copy.copy / clone(0) of tree lists and matrices) are judged on member identity, container independence and the
+top-level annotations only, and not at all on annotation values that refer to a member (clone(0) documents them as
+references, the implementation deep-copies them); TaxonNamespace.clone(1) returns the namespace itself (recorded);
+objects sharing one __dict__ are one object; data sets are excluded (documented non-copyable); trees deeper than
+100 levels are only built by the directed recursion-depth case; nodes carry taxa of the tree's namespace only;
+a mutation that raises is recorded, not judged."""
 import copy
 import random
 import sys
@@ -73,10 +86,10 @@ REACH = ["basemodel:Annotable.__deepcopy__", "basemodel:Annotable.deep_copy_anno
          "treecollectionmodel:TreeList.taxon_namespace_scoped_copy",
          "charmatrixmodel:CharacterMatrix._clone_from", "charmatrixmodel:CharacterMatrix.__copy__",
          "charmatrixmodel:CharacterMatrix.taxon_namespace_scoped_copy", "container:OrderedSet.__deepcopy__", "container:OrderedCaselessDict.__deepcopy__"]
-MIN_EVENTS = {"copy-made": (2500, 25000), "shared-set-judged": (2500, 25000), "signature-judged": (2500, 25000),
-              "mutation-judged": (25000, 250000), "mutation-effective": (20000, 200000), "bound-follow-judged": (5000, 50000),
-              "memo-seed-judged": (800, 8000), "rebinding-judged": (20000, 200000), "source-unchanged-judged": (2500, 25000),
-              "extract-only-judged": (500, 5000)}
+MIN_EVENTS = {"copy-made": (2500, 40000), "shared-set-judged": (2500, 40000), "signature-judged": (2500, 40000),
+              "mutation-judged": (25000, 400000), "mutation-effective": (20000, 350000), "bound-follow-judged": (5000, 100000),
+              "memo-seed-judged": (800, 10000), "rebinding-judged": (20000, 400000), "source-unchanged-judged": (2500, 40000),
+              "extract-only-judged": (500, 8000)}
 ASSUMPTIONS = ["reachability is computed from raw __dict__ / list / tuple / dict / set contents; state alphabets and state "
                "identities (library-wide singletons whose copy is the object itself) are not entered",
                "objects that share one __dict__ are treated as one object (the copy constructors adopt the __dict__ of a temporary)",
@@ -119,9 +132,9 @@ def cases(tier, seed):
                     routes = (TREE_ROUTES[k], TREE_ROUTES[(k + 5) % len(TREE_ROUTES)])
                 for r in routes:
                     yield {"kind": "shape", "n": n, "idx": idx, "deco": deco, "route": r, "seed": seed}
-    nrand = 2600 if tier == "quick" else 30000
+    nrand = 2600 if tier == "quick" else 50000
     for i in range(nrand):
-        yield {"kind": "random", "i": i, "seed": seed}
+        yield {"kind": "random", "i": i, "seed": seed, "tier": tier}     # sizes depend on the tier; --replay re-runs the descriptor alone
 
 
 # --------------------------------------------------------------------------------------------
@@ -413,7 +426,7 @@ def attempt_copy(ctx, op, kind, route, src, rng, detail):
     return False, None, None, None
 
 
-def judge(ctx, kind, route, src, rng, chain=None, detail=None, journal_steps=None):
+def judge(ctx, kind, route, src, rng, chain=None, detail=None, journal_steps=None, tier=None):
     L = U.L.load()
     detail = dict(detail or {})
     detail.update({"kind": kind, "route": route, "chain": chain})
@@ -554,6 +567,8 @@ def judge(ctx, kind, route, src, rng, chain=None, detail=None, journal_steps=Non
             ctx.note("not-judged:%s-differs:%s.%s" % (k[1:], kind, route))
 
     # ---- mutation journal -------------------------------------------------------------------
+    if journal_steps is None:
+        journal_steps = 12 if (tier or ctx.tier) == "quick" else 16
     run_journal(ctx, op, kind, mode, sv, cv, rng, detail, journal_steps)
     return cp
 
@@ -624,7 +639,7 @@ def run_journal(ctx, op, kind, mode, sv, cv, rng, detail, steps=None):
     classes = j.classes(kind)
     rng.shuffle(classes)
     if steps is None:
-        steps = 12 if ctx.tier == "quick" else 16
+        steps = 12
     size = len(sv.nm.objs)
     if size > 400:
         steps = min(steps, 6)
@@ -727,7 +742,7 @@ def run_directed(case, ctx, rng):
             judge(ctx, "tree", route, dendropy.Tree(t), rng, chain="ctor", detail={"tree": "single node, tree.annotations.add_bound_attribute('label')"})
         # node annotation bound to the tree's attribute: silent variant
         for route in ("deepcopy", "clone1"):
-            t = dendropy.Tree.get(data="(A,B);", schema="newick") if False else bridge.build_tree(ref.S(None, [ref.S("A"), ref.S("B")]), dendropy.TaxonNamespace(), True, label="t")
+            t = bridge.build_tree(ref.S(None, [ref.S("A"), ref.S("B")]), dendropy.TaxonNamespace(), True, label="t")
             t.seed_node.annotations.add_bound_attribute("label", annotation_name="treelabel", owner_instance=t)
             judge(ctx, "tree", route, dendropy.Tree(t), rng, chain="ctor", detail={"tree": "(A,B); seed_node annotation bound to tree.label"})
     elif name == "treelist-of-constructed-copy":
@@ -796,7 +811,8 @@ def run_case(case, ctx):
         # ---- random ---------------------------------------------------------------------
         k = rng.choice(["tree"] * 5 + ["treelist"] * 2 + ["matrix"] * 2 + ["ns"])
         deco = rng.choice([0, 1, 2, 2])
-        src, desc = make_source(k, rng, ctx.tier, deco)
+        tier = case.get("tier") or ctx.tier
+        src, desc = make_source(k, rng, tier, deco)
         route = rng.choice(ROUTES[k])
         chain = rng.choice(CHAINS) if k != "ns" else rng.choice((None, None, "ctor", "deepcopy"))
         detail = dict(desc, deco=deco)
@@ -811,6 +827,6 @@ def run_case(case, ctx):
                 ok = False
             if not ok:
                 return
-        judge(ctx, k, route, src, rng, chain=chain, detail=detail)
+        judge(ctx, k, route, src, rng, chain=chain, detail=detail, tier=tier)
         if case["i"] < 6:
             ctx.sample({"case": case, "kind": k, "route": route, "chain": chain, "source": detail})
